@@ -49,7 +49,9 @@ def _pool():
 def outcome(o):
     """What a consumer can tell: items, how it ended, what was returned/raised."""
     return {"yields": tm.yields(o.log), "ending": o.ending, "result": result_projection(o.log) if o.log else None,
-            "exc_type": o.exc_type, "exc_same": o.exc_same}
+            "exc_type": o.exc_type, "exc_same": o.exc_same,
+            "calls": [(e["f"], json.dumps(e["a"], sort_keys=True), e["res"]) for e in o.log if e["ev"] == "call"],
+            "called_but_not_awaited": o.invoked_extra, "mutations": sorted(set(o.mutations))}
 
 
 # =========================================================================== C03
@@ -87,7 +89,8 @@ def c03_case(args):
             got = outcome(o)
             if got != ref:
                 what = [k for k in ref if got[k] != ref[k]]
-                cls = "exception-differs" if set(what) <= {"exc_type", "exc_same", "ending"} else "items-differ" if "yields" in what else "result-differs"
+                cls = "exception-differs" if set(what) <= {"exc_type", "exc_same", "ending"} else "items-differ" if "yields" in what else \
+                      "result-differs" if "result" in what else "argument-mutated" if "mutations" in what else "callable-invocations-differ"
                 out.append((f"C03/{tool}/{cls}-with-{'callable' if fl['call'] != 'asyncdef' and list(srcs) == ['cls'] * n else 'iterable'}-flavour",
                             {"engine": "toolmachine", "cfg": case["cfg"], "nnext": case["nnext"], "fault": tm.fault_plan(case),
                              "flavours": fl, "expected": {k: ref[k] for k in what}, "observed": {k: got[k] for k in what}}))
@@ -236,6 +239,12 @@ def check_c03(prop, tier, seed):
     runs += n
     for sig, d in out:
         v.violation(sig, d)
+    # exit callbacks / exit handlers of ExitStack: the same history with every concrete kind of callable
+    from . import eng_exitstack  # noqa: PLC0415
+    found, n, xst = eng_exitstack.flavour_dependence(seed)
+    runs += n
+    for sig, d in found:
+        v.violation(sig, d)
     bad, checked = kinds_table(tm.load_lib())
     for name, why in bad:
         v.violation(f"C03/{name}/returns-plain-value", {"engine": "kinds", "expected": "awaitable | async iterator | async context manager", "observed": why})
@@ -245,9 +254,9 @@ def check_c03(prop, tier, seed):
                       "a failing use that a flavour makes invisible (a plain list cannot fail) is skipped for that flavour"]
     return v.finish({
         "states": stats["states"], "transitions": stats["transitions"], "traces_validated_against_impl": runs,
-        "cases": len(chosen), "cases_available": len(full) + len(faults), "public_callables_checked": checked,
+        "cases": len(chosen), "cases_available": len(full) + len(faults), "public_callables_checked": checked, "exitstack_flavour_replays": n, "exitstack_model": xst,
         "evaluations": runs, "distinct_nontrivial": len([c for c in chosen if nontrivial(c)]), "exhaustive": len(chosen) == len(full) + len(faults),
-        "rule": "ToolMachine cases (full consumption and single faults) x all assignments of 6 iterable flavours to <=2 iterable parameters (sampled for 3) x 4 callable flavours",
+        "rule": "ToolMachine cases (full consumption and single faults) x all assignments of 6 iterable flavours to <=2 iterable parameters (sampled for 3) x 7 callable flavours; ExitStack histories x 5 concrete kinds per entry class",
         "checker_cmd": "tlc spec/ToolMachine.tla (case enumeration)",
     })
 
